@@ -1,7 +1,7 @@
 (* C01 - Every emitted event is exactly one well-formed JSON object on one line.
    Statements only; proofs are [exact] from Proofs/ExecP.v and Proofs/JsonEncP.v. *)
 From Verif Require Import Base.Prelude Base.Decimal Base.Utf8 Base.JsonSpec Enc.JsonEnc Misc.Level
-     Proofs.JsonEncP Api.Exec Api.Spec Proofs.ExecP.
+     Proofs.JsonEncP Api.Exec Api.Spec Proofs.ExecP Proofs.FuelP.
 Open Scope N_scope.
 
 (* For ALL settings, ALL logger derivation chains (With / UpdateContext with any
@@ -38,6 +38,21 @@ Proof. exact AppendKey_shape. Qed.
 Theorem C01_value_never_ends_in_brace : forall t v, Json t v -> t <> [] /\ last_byte t <> 0x7B.
 Proof. exact Json_last. Qed.
 
+(* the execution fuel of the model is only a device: every fuel that covers the
+   nesting depth of the program gives the result of [exec] (fuel = depth), so
+   the model never runs a truncated program, whatever the nesting *)
+Theorem C01_exec_fuel_irrelevant : forall st n o e, (depth o <= n)%nat -> exec_n st n o e = exec st o e.
+Proof. exact exec_fuel_enough. Qed.
+
+Theorem C01_exec_list_is_exec : forall st l e, exec_list st l e = run_list (exec st) l e.
+Proof. exact exec_list_is_exec. Qed.
+
+(* ... and so do the premises: [ops_ok] is the conjunction of the per-op oracle
+   premises, each of which constrains every nested fragment (no fuel runs out
+   and turns a premise into True) *)
+Theorem C01_premises_fuel_irrelevant : forall st l, ops_ok st l <-> Forall (op_ok st) l.
+Proof. exact ops_ok_is_op_ok. Qed.
+
 (* non-vacuity: a nested program with context, hook, Dict, Array, Fields, errors meets the premises *)
 Definition ex_settings : settings :=
   {| s_level_name := [108]; s_message_name := [109]; s_error_name := [101]; s_stack_name := [115];
@@ -72,3 +87,6 @@ Print Assumptions C01_event_line.
 Print Assumptions C01_string_escaping.
 Print Assumptions C01_AppendKey_shape.
 Print Assumptions C01_value_never_ends_in_brace.
+Print Assumptions C01_exec_fuel_irrelevant.
+Print Assumptions C01_exec_list_is_exec.
+Print Assumptions C01_premises_fuel_irrelevant.
